@@ -62,22 +62,35 @@ Finish8 == /\ Mode = "C08" /\ out = <<>> /\ hist # <<>>
                       default_handler |-> Normal, steps |-> Ctl \o Flat(Steps8(hist))]
            /\ UNCHANGED hist
 
-\* C09: kinds for requests 0,4,..; the GOAWAY position g (after g requests); pokes after everything, in id order or reversed
-Finish9 == /\ Mode = "C09" /\ out = <<>>
-           /\ \E n \in 0..NReq9 : \E ks \in [1..n -> Kinds], g \in 0..(n + 1), rev \in BOOLEAN :
+\* C09: kinds for requests 0,4,..; the GOAWAY position g (after g requests); pokes after everything, in id order or reversed;
+\* burst: the released requests all run to their end before accept() is polled again (several ends between two polls)
+Scn9(n, ks, g, rev, burst) ==
                 LET ids == [i \in 1..n |-> 4 * (i - 1)]
                     arr == [i \in 1..n |-> PeerSteps(ks[i], ids[i])]
                     before == Flat([i \in 1..n |-> IF i <= g THEN arr[i] ELSE <<>>])
                     after == Flat([i \in 1..n |-> IF i > g THEN arr[i] ELSE <<>>])
                     pk == { i \in 1..n : NeedsPoke(ks[i]) }
                     order == IF rev THEN [j \in 1..n |-> n + 1 - j] ELSE [j \in 1..n |-> j]
-                    pokes == Flat([j \in 1..n |-> IF order[j] \in pk THEN <<[op |-> "poke", task |-> PokeTask(ks[order[j]], ids[order[j]])]>> ELSE <<>>])
+                    pokes == IF burst
+                             THEN Flat([j \in 1..n |-> IF order[j] \in pk THEN <<[op |-> "poke", task |-> PokeTask(ks[order[j]], ids[order[j]]), no_run |-> TRUE]>> ELSE <<>>])
+                                  \o Flat([j \in 1..n |-> IF order[j] \in pk THEN <<[op |-> "step", task |-> PokeTask(ks[order[j]], ids[order[j]]), no_run |-> TRUE]>> ELSE <<>>])
+                                  \o <<[op |-> "run"]>>
+                             ELSE Flat([j \in 1..n |-> IF order[j] \in pk THEN <<[op |-> "poke", task |-> PokeTask(ks[order[j]], ids[order[j]])]>> ELSE <<>>])
                     \* g = n + 1: the GOAWAY arrives after the held requests were released
                     steps == IF g = n + 1 THEN Ctl \o before \o pokes \o <<Goaway>>
                              ELSE Ctl \o before \o <<Goaway>> \o after \o pokes
-                IN /\ (rev => Cardinality(pk) >= 2)
-                   /\ out' = [role |-> "server", cfg |-> [grease |-> FALSE], mode |-> "C09", kinds |-> ks, goaway_after |-> g,
-                              handlers |-> [i \in 1..n |-> Handler(ks[i])], default_handler |-> Normal, steps |-> steps]
+                IN [role |-> "server", cfg |-> [grease |-> FALSE], mode |-> "C09", kinds |-> ks, goaway_after |-> g, burst |-> burst,
+                    handlers |-> [i \in 1..n |-> Handler(ks[i])], default_handler |-> Normal, steps |-> steps]
+PokeKinds == {"held", "heldres", "split"}
+Finish9 == /\ Mode = "C09" /\ out = <<>>
+           /\ \/ \E n \in 0..NReq9 : \E ks \in [1..n -> Kinds], g \in 0..(n + 1), rev \in BOOLEAN, burst \in BOOLEAN :
+                   LET pk == { i \in 1..n : NeedsPoke(ks[i]) } IN
+                   /\ (rev => Cardinality(pk) >= 2) /\ (burst => Cardinality(pk) >= 2)
+                   /\ out' = Scn9(n, ks, g, rev, burst)
+              \* three (four) requests released at once, whatever NReq9 is
+              \/ \E n \in {3, 4} : \E ks \in [1..n -> PokeKinds], g \in 0..n, rev \in BOOLEAN :
+                   /\ n > NReq9 /\ (n = 4 => (\A i \in 1..n : ks[i] = ks[1]) /\ g \in {0, 4})
+                   /\ out' = Scn9(n, ks, g, rev, TRUE)
            /\ UNCHANGED hist
 
 Next == Extend8 \/ Finish8 \/ Finish9
